@@ -125,9 +125,26 @@ template<typename T> var_opt_union<T> read_varopt_union(const std::string& img, 
   if (stream) { std::istringstream is(img); return var_opt_union<T>::deserialize(is); }
   return var_opt_union<T>::deserialize(img.data(), img.size());
 }
+// The union has no public getters besides get_result(), whose marked-item resolution is an algorithm of its own (several fix:
+// commits changed it) rather than a property of the image.  The read-out therefore records the stored state (private members,
+// read only) and adds the public result only when the gadget has no marked items (get_result() is then a plain copy).
 template<typename T> std::string readout_varopt_union(const var_opt_union<T>& u) {
-  pin_lib_rng(4242);    // get_result() may resolve marked items with library randomness
-  return readout_varopt(u.get_result(), "varopt_union");
+  J j; j.put("family", std::string("varopt_union"));
+  j.put("max_k", u.max_k_).put("n", u.n_).put("outer_tau_numer", u.outer_tau_numer_).put("outer_tau_denom", u.outer_tau_denom_);
+  const var_opt_sketch<T>& g = u.gadget_;
+  j.put("gadget_k", g.k_).put("gadget_h", g.h_).put("gadget_r", g.r_).put("gadget_n", g.n_).put("gadget_total_wt_r", g.total_wt_r_).put("gadget_marks_in_h", g.num_marks_in_h_);
+  std::vector<T> items; std::vector<double> w; std::vector<uint32_t> marks;
+  for (uint32_t i = 0; i < g.h_; ++i) { items.push_back(g.data_[i]); w.push_back(g.weights_[i]); marks.push_back(g.marks_ != nullptr && g.marks_[i] ? 1 : 0); }
+  for (uint32_t i = g.h_ + 1; i < g.h_ + 1 + g.r_; ++i) items.push_back(g.data_[i]);
+  j.arr("gadget_items", items).arr("gadget_h_weights", w).arr("gadget_h_marks", marks);
+  if (g.num_marks_in_h_ == 0) {
+    pin_lib_rng(4242);
+    const var_opt_sketch<T> res = u.get_result();
+    std::vector<T> ri; std::vector<double> rw;
+    varopt_items(res, ri, rw);
+    j.put("result_k", res.get_k()).put("result_n", res.get_n()).arr("result_items", ri).arr("result_weights", rw);
+  }
+  return j.done();
 }
 template<typename T> void register_varopt_union(const std::string& name, int nvariants) {
   Family f; f.name = name; f.group = 3; f.nvariants = nvariants;
@@ -178,6 +195,10 @@ template<typename T> ebpps_sketch<T> gen_ebpps(int variant, Rng& r, bool small) 
     case 2: feed(s, k + r.below(small ? 200 : 20000), 0); break;         // equal weights: c == k
     case 3: feed(s, 1 + r.below(small ? 200 : 20000), 1); break;         // varied weights: fractional c, partial item
     default: {
+#ifdef C10_PINNED_TREE
+      // corpus v0 is written by the pinned tree, whose EBPPS merge is broken (see below; can crash in get_result): un-merged state
+      feed(s, 1 + r.below(200), 1); break;
+#endif
       ebpps_sketch<T> o(k); feed(o, 1 + r.below(small ? 100 : 5000), 1); feed(s, 1 + r.below(small ? 100 : 5000), 1); s.merge(o);
       // Genuine library defect (not a layout question): merge can leave c ahead of the stored sample (an item whose contribution
       // rounds to 1+eps is kept as a partial item).  Such a sketch cannot be serialized into a readable image (and trips UBSan in
@@ -522,6 +543,13 @@ inline void register_group_c() {
   register_bloom();
   register_density<float>("density_float", 20);
   register_density<double>("density_double", 5);
+  // t-digest reference-implementation images (big endian); the float image is also readable as tdigest<double> (tdigest_test.cpp)
+  shipped().push_back(Shipped{"tdigest/test/tdigest_ref_k100_n10000_double.sk", "tdigest_ref_k100_n10000_double.sk", "tdigest",
+    [](const std::string& img, bool stream) { return readout_tdigest(read_tdigest<double>(img, stream)); }});
+  shipped().push_back(Shipped{"tdigest/test/tdigest_ref_k100_n10000_float.sk", "tdigest_ref_k100_n10000_float.sk", "tdigest",
+    [](const std::string& img, bool stream) { return readout_tdigest(read_tdigest<float>(img, stream)); }});
+  shipped().push_back(Shipped{"tdigest/test/tdigest_ref_k100_n10000_float.sk", "tdigest_ref_k100_n10000_float.sk.as_double", "tdigest",
+    [](const std::string& img, bool stream) { return readout_tdigest(read_tdigest<double>(img, stream)); }});
 #endif
 }
 
